@@ -429,16 +429,18 @@ def check_tag_names(chk, ix):
     it.fold_regex = True
     it.int_sat = 1000
     it.list_cap = 1000
-    for text in samples:
+    # row tags are made with unescape=True: the two-character sequences backslash-t / backslash-n stand for a tab / a newline
+    cases = [(t_, False) for t_ in samples] + [(t_, True) for t_ in ("plain", "Zürich", "東京 tower", "café", "a\\tb", "line\\nbreak", "München\\tNord")]
+    for text, unescape in cases:
         st = State()
         st.frames = []
-        outs = it.call_function(st, f, [text], {}, None, self_val=ClassVal(tc))
+        outs = it.call_function(st, f, [text], {"unescape": True} if unescape else {}, None, self_val=ClassVal(tc))
         chk.instance("B8")
         if len(outs) != 1 or outs[0][1] != "val" or not isinstance(outs[0][2], str):
             raise AnalysisError("Tag.make_name not foldable on %r: %r" % (text, [(k, v) for _, k, v in outs][:2]))
-        want = oracle(text)
+        want = oracle(text.replace("\\t", "\t").replace("\\n", "\n") if unescape else text)
         if outs[0][2] == want:
-            chk.ok("B8", {"cell": text, "tag name": want}, nontrivial_key=text)
+            chk.ok("B8", {"cell": text, "unescape": unescape, "tag name": want}, nontrivial_key=(text, unescape))
         else:
             _fail(chk, "B8", f, "%r -> %r" % (text, outs[0][2]), "Tag.make_name(%r) gives %r; keeping alphanumerics (any script) and the allowed punctuation, "
                   "blanks as '_', gives %r - a row tag built from this cell no longer matches the value shown in the scenario" % (text, outs[0][2], want))
@@ -479,3 +481,52 @@ def check_row_tags_concrete(chk, ix, rule="B9"):
             _fail(chk, rule, f, "%r -> %r" % (tags, got), "the outline tags %r with row %r and row parameters %r give the row tags %r; expected %r" % (
                 tags, dict(row), dict(params), got, want))
     chk.absorb(it)
+
+
+
+WHAT["B10"] = "the name schema set in the configuration is the one the outline builder formats row names with"
+
+
+def check_configured_schema_reaches_builder(chk, ix):
+    """B10: Configuration.setup_model() evaluated with a configured scenario_outline_annotation_schema, then
+    ScenarioOutline.scenarios on an outline that has to build its rows: the builder is created with that schema."""
+    chk.rule("B10", WHAT["B10"])
+    cc = ix.cls("behave.configuration:Configuration")
+    oc = ix.cls("behave.model:ScenarioOutline")
+    f = cc.lookup("setup_model")
+    prop = oc.lookup("scenarios")
+    if f is None or prop is None:
+        raise AnalysisError("anchor missing: Configuration.setup_model / ScenarioOutline.scenarios")
+    for schema, want in (("  {name} [{row.id}]  ", "{name} [{row.id}]"), (None, None)):
+        got = []
+
+        def builder_ctor(i, s_, a, k, n):
+            arg = a[0] if a else k.get("annotation_schema")
+            got.append(arg)
+            return [(s_, "val", s_.alloc(HObj("BuilderTok", {}, open=True, label="builder")))]
+        it = Interp(ix, stubs={"ScenarioOutlineBuilder": builder_ctor, "BuilderTok.build_scenarios": lambda i, s_, a, k, n: [(s_, "val", s_.alloc(HObj("list", kind="list", items=[])))],
+                               "ScenarioOutline._is_any_example_table_modified": lambda i, s_, a, k, n: [(s_, "val", True)]},
+                    name="setup_model -> ScenarioOutline.scenarios")
+        it.int_sat = 100
+        st = State()
+        st.frames = []
+        cfg = st.alloc(HObj(cc, {"scenario_outline_annotation_schema": schema}, label="config"))
+        outs = it.call_function(st, f, [], {}, None, self_val=cfg)
+        if len(outs) != 1 or outs[0][1] != "val":
+            raise AnalysisError("Configuration.setup_model not evaluable: %r" % [(k, v) for _, k, v in outs][:3])
+        cur = outs[0][0]
+        outline = cur.alloc(HObj(oc, {"_scenarios": cur.alloc(HObj("list", kind="list", items=[])), "examples": cur.alloc(HObj("list", kind="list", items=[]))}, label="outline"))
+        outs = it.call_function(cur, prop, [], {}, None, self_val=outline)
+        chk.absorb(it)
+        chk.instance("B10")
+        if len(outs) != 1 or outs[0][1] != "val" or len(got) != 1:
+            raise AnalysisError("ScenarioOutline.scenarios not evaluable after setup_model: %r / %r" % ([(k, v) for _, k, v in outs][:3], got))
+        default = ix.fold(ix.cls("behave.model:ScenarioOutlineBuilder").lookup_const("annotation_schema")[1], ix.module("behave.model"))
+        expect = want if want is not None else default
+        if got[0] == expect or (want is None and got[0] is None):
+            chk.ok("B10", {"configured schema": schema, "builder created with": got[0]}, nontrivial_key=repr(schema))
+        else:
+            chk.fail(Finding("B10", f.fullname, "configured %r -> builder gets %r" % (schema, got[0]),
+                             "with scenario_outline_annotation_schema = %r in the configuration, ScenarioOutline.scenarios creates its builder with %r; "
+                             "expected %r: the configured name schema is ignored, row scenarios get the default names" % (schema, got[0], expect),
+                             file=f.file, line=f.lineno, stmt="def setup_model"))
